@@ -4,7 +4,7 @@ d="$1"; wt="$2"
 git -C "$wt" checkout -q -- . ; git -C "$wt" clean -fdq
 git -C "$wt" apply "$d/patch.diff" || { echo "$d APPLY-FAILED"; exit 3; }
 t=$(cd "$wt" && /venv/bin/python -m pytest -q -p no:cacheprovider 2>&1 | tail -1)
-PYTHONPATH="$wt/src" /venv/bin/python "$d/demo.py" >/dev/null 2>&1; with=$?
+PYTHONPATH="$wt/src" timeout 300 /venv/bin/python "$d/demo.py" >/dev/null 2>&1; with=$?
 git -C "$wt" checkout -q -- . ; git -C "$wt" clean -fdq
-PYTHONPATH="$wt/src" /venv/bin/python "$d/demo.py" >/dev/null 2>&1; without=$?
+PYTHONPATH="$wt/src" timeout 300 /venv/bin/python "$d/demo.py" >/dev/null 2>&1; without=$?
 echo "$(basename $d): tests[$t] demo-with-patch=$with demo-clean=$without"
